@@ -428,3 +428,45 @@ func TestC11Enumerate(t *testing.T) {
 	}
 	col.Exhaustive = true
 }
+
+// A delay (sleep or a burst of yields) injected at EVERY pipeline hand-over point in turn, for every operation, with and
+// without a cancellation in the middle of the input and with failing blocks: the schedules that the free scheduler rarely
+// produces (a slow stage next to fast ones) are forced one by one.
+func TestC11HookSweep(t *testing.T) {
+	col := coll("C11", "hook-sweep")
+	docs := []string{
+		"- a\n  - b\n- c\n- d\n  - e\n- f\n- g\n- h\n- i\n- j\n- k\n- l\n- m\n",
+		"# a\n- b\n  - c\n# d\n- e\n# f\n# g\n- h\n",
+		"- a\n  x bad\n- c\n  - \n- d\n  x bad\n- e\n  x bad\n- f\n  - ok\n",
+	}
+	col.Rule = fmt.Sprintf("every one of the %d verif hook points x {sleep 2 ms, 50 yields, sleep 2 ms on the first arrival only} x every operation x %d documents (one with four failing blocks) x {no cancellation, cancellation inside the Read crossing the middle of the input, pre-cancelled}; same oracle as the other parts (return, context error, completeness, no leak)", len(hookPoints), len(docs))
+	n := 0
+	for _, p := range hookPoints {
+		for ai, act := range []ops.HookAct{{Action: "sleep", N: 2000}, {Action: "gosched", N: 50}, {Action: "sleep", N: 2000, First: 1}} {
+			for _, op := range c10Ops {
+				for di, d := range docs {
+					for ci, cancel := range []ops.Cancel{{}, {Kind: "atOffset", K: len(d) / 2}, {Kind: "pre"}} {
+						n++
+						if n%nshards != shard {
+							continue
+						}
+						if !thorough() && (n/nshards)%3 != 0 { // quick tier: a third of the grid
+							continue
+						}
+						_, _, _ = ai, di, ci
+						c := c11Case{Doc: []byte(d), Op: op, Faults: ops.NoFaults(), Cancel: cancel, Exts: []string{"b"},
+							Sched: ops.Sched{Hook: map[string]ops.HookAct{p: act}, ReadChunk: 1 + n%7}, Failing: strings.Count(d, "bad") + strings.Count(d, "- \n"), Blocks: 5}
+						if op == "verify" {
+							c.Failing++ // nothing is materialised: a verify error may win
+						}
+						c11Record(col, c)
+						if msg := c11Check(c); msg != "" {
+							violation(t, "C11", "c11", c, msg)
+						}
+					}
+				}
+			}
+		}
+	}
+	col.Exhaustive = true
+}
